@@ -225,7 +225,10 @@ fn worker(args: &WorkerArgs, progs: &[Prog]) -> ShardStats {
     }
     let per_prog: u64 = if prop == "C19" { 0 } else { args.get_u64("runs", if thorough { 5000 } else { 600 }) };
     let eligible: Vec<usize> = (0..progs.len())
-        .filter(|i| progs[*i].model.is_none())
+        // programs with a model declaration take part in C05 (immediate visibility also holds for
+        // member relations, whose queries read the `all` copies); the other monitors do not know
+        // the own / all split
+        .filter(|i| progs[*i].model.is_none() || prop == "C05")
         .filter(|i| match prop {
             "C06" => progs[*i].surjective,
             "C15" => progs[*i].program.sorts.iter().any(|s| matches!(s.kind, lang::SortKind::Enum(_))),
@@ -242,7 +245,18 @@ fn worker(args: &WorkerArgs, progs: &[Prog]) -> ShardStats {
         let seed = derive_seed(args.seed, stream_of(prop), idx);
         let mut rng = Rng::new(seed);
         let knobs = HistKnobs::draw(&mut rng);
-        let ops = gen_history(prog, &mut rng, &knobs, matches!(prop, "C01" | "C06"));
+        let ops = if prog.model.is_some() {
+            // well-formed model histories (objects, morphisms, members, facts, closes in between)
+            let mut ops = c17::gen_history(prog, &mut rng);
+            if rng.chance(1, 2) {
+                // and a tail of further assertions that no close follows
+                ops.pop();
+            }
+            stats.fault("model_program_history");
+            ops
+        } else {
+            gen_history(prog, &mut rng, &knobs, matches!(prop, "C01" | "C06"))
+        };
         stats.run_seed(seed);
         let case = history_case(prop, prog, &ops, seed);
         match run_case(progs, &case) {
